@@ -67,16 +67,23 @@ def step_strategy(draw, nd):
 
 
 @st.composite
-def history_case(draw, max_steps=8):
-    nd = draw(st.sampled_from([1, 2, 2, 3, 3]))
+def history_case(draw, max_steps=8, kforms=False):
+    nd = draw(st.sampled_from([2, 3] if kforms else [1, 2, 2, 3, 3]))
     g = draw(gen.geom(ndim=nd, nmin=1, nmax=4, exps=(-9, 0), big_offsets=False, maxcells=64, units=False, tol=False))
     g["units"] = list(draw(st.permutations(c12.UNITS4)))[:nd]
     g2 = draw(gen.geom(ndim=nd, nmin=1, nmax=4, exps=(-9, 0), big_offsets=False, maxcells=64, units=False, tol=False))
     g2["units"] = list(draw(st.permutations(c12.UNITS4)))[:nd]
+    steps = draw(st.lists(step_strategy(nd), min_size=0 if kforms else 3, max_size=max_steps))
+    if kforms:
+        # a quarter turn whose count is a whole-number float / numpy number, at a drawn place of the history
+        mix = ((draw(st.integers(0, 2**40)) + 0xC13) * 0x9E3779B97F4A7C15) % 2**64 >> 9
+        forced = ["bad", ["rot-k-whole-float", "rot-k-whole-float", "rot-k-numpy-int"][mix % 3], (mix // 3) % nd,
+                  (mix // 16) % 3 != 0, [1, 3, -1, 2, 5, 4, 0, -6][(mix // 64) % 8], ["python", "numpy"][(mix // 1024) % 2]]
+        steps.insert((mix // 4096) % (len(steps) + 1), forced)
     return {"g": g, "subs": draw(gen.index_boxes(g["n"], 2)), "g2": g2, "subs2": draw(gen.index_boxes(g2["n"], 2)),
             "vector": draw(st.booleans()), "seed": draw(st.integers(0, 2**31)), "mask": draw(gen.mask_spec(nd)),
             "alias": draw(st.sampled_from([0, 0, 0, 1, 2])),
-            "steps": draw(st.lists(step_strategy(nd), min_size=3, max_size=max_steps))}
+            "steps": steps}
 
 
 # --------------------------------------------------------------------------- state access
@@ -571,6 +578,7 @@ def nontrivial(case):
 SUBS = [
     Sub("history", check_history, history_case(8), nontrivial=nontrivial, quick=300, thorough=2500),
     Sub("history-long", check_history, history_case(12), nontrivial=nontrivial, quick=80, thorough=1500),
+    Sub("history-k-forms", check_history, history_case(3, kforms=True), nontrivial=lambda c: True, quick=150, thorough=1500),
 ]
 
 
